@@ -223,7 +223,7 @@ def mk_confine(ncomp, method, write):
         base_parts = [p for p in SB.base.split("/") if p]           # e.g. ['tmp', 'vf-c19-xxxx']
         if ncomp <= 2:
             ALPHA = ["", ".", "..", "a", "sub", "a/b", "f.txt", "g.txt", "\0", "~", "é", "outside.txt", "pub-private", "secret.txt", "pub", "empty"] + base_parts
-            NCOND = 4
+            NCOND = 5 if method == "GET" else 4
         else:
             ALPHA = ["", "..", "sub", "f.txt", "outside.txt", "pub-private", "secret.txt", "pub"] + base_parts
             NCOND = 1
@@ -240,8 +240,10 @@ def mk_confine(ncomp, method, write):
             with SimLoop() as loop:
                 fs = FileServer(Path(SB.root), LOG, write=write)
                 req = Message(code=CODE, uri_path=comps, payload=b"new-content" if method == "PUT" else b"")
-                cnd = pick([0, 1, 2, 3], cond)
-                if cnd == 1:
+                cnd = pick([0, 1, 2, 3, 4], cond)
+                if cnd == 4:
+                    req.opt.observe = 0            # observation registration goes through request_to_localpath as well
+                elif cnd == 1:
                     req.opt.if_none_match = True
                 elif cnd == 2:
                     req.opt.if_match = [b"\\x00" * 8]
@@ -258,7 +260,7 @@ def mk_confine(ncomp, method, write):
                 if resp.code.class_ != 2:
                     assert after_root == before_root, "request answered with an error must have no effect"
                 # not vacuous: plain requests for what exists inside are served
-                if comps == ["f.txt"] and method == "GET" and cnd in (0, 1, 2):
+                if comps == ["f.txt"] and method == "GET" and cnd in (0, 1, 2, 4):
                     assert int(resp.code) == 69 and resp.payload == b"file-f"
                 if comps == ["sub", "g.txt"] and method == "GET" and cnd == 0:
                     assert resp.payload == b"file-g"
@@ -381,7 +383,7 @@ def obligations(tier):
         obs.append(Obligation("confine-%s-%dcomp-%s" % (method.lower(), ncomp, "write" if write else "ro"), mk_confine(ncomp, method, write),
                               280 if q else 3000, functions=FUNCS,
                               symbolic={"components": "%d x index over %s tokens (incl. '', '..', embedded slash / NUL / '.' for <= 2 components, sandbox path components, sentinel names)" % (ncomp, "18" if ncomp <= 2 else "10"),
-                                        "conditional option": "none / If-None-Match / If-Match / ETag" if ncomp <= 2 else "none"},
+                                        "conditional option": "none / If-None-Match / If-Match / ETag / Observe (GET)" if ncomp <= 2 else "none"},
                               concrete={"method": method, "write enabled": write},
                               stubs=["scratch tree under /tmp re-created per path", "os/io interception", "tempfile names from a counter"]))
     obs.append(Obligation("block-reads", mk_blockread, 280 if q else 900, functions=FUNCS,
